@@ -42,14 +42,19 @@ def all_skeletons(tier):
 NT = 64
 
 
+REPEAT = ["a + b", "a > b || b > 0", "[a, b].exists(x, x > a)", "a > 0 ? a : b", "[1, 2].map(x, x + b)[0] + a", "a == 1 && b == 2"]
+
+
 def tasks(tier):
-    return [{"tier": tier, "stride": i} for i in range(NT)]
+    return [{"tier": tier, "stride": i} for i in range(NT)] + [{"tier": tier, "repeat": i} for i in range(len(REPEAT))]
 
 
 def run_task(task, kf):
     from ..sym import loader
     out = []
     first = True
+    if "repeat" in task:
+        return [explore.explore(repeat_harness(REPEAT[task["repeat"]]), kf, profile_root=loader.SRC)]
     for typ, src, origin in all_skeletons(task["tier"])[task["stride"]::NT]:
         h = harness(typ, src, origin, 120 if task["tier"] == "quick" else 300)
         out.append(explore.explore(h, kf, profile_root=loader.SRC if first else None))
@@ -111,6 +116,44 @@ def harness(typ, src, origin, budget):
         return {"check": "c03.agree", "args": {"src": src, "bindings": to_json(vals)}}
 
     return Harness(id=f"C03:{src}", vars=vars, pre=pre, run=run, witness=witness, max_paths=budget)
+
+
+def repeat_harness(src):
+    """one program per runner, evaluated several times in a row with activations that bind different sets of names: at every step
+    the compiled outcome is the interpreter's (an activation that lacks a name must not see an earlier call's value)"""
+    celpy, ct, ev = common.mods()
+    from ..sym.core import SInt, mk
+    A, B, A2, B2 = z3.Int("a"), z3.Int("b"), z3.Int("a2"), z3.Int("b2")
+    vars = {"a": A, "b": B, "a2": A2, "b2": B2}
+    pre = []
+    for v in vars.values():
+        pre += [v >= -(2**40), v <= 2**40]
+    progs = {r: common.make_program(src, r) for r in common.RUNNERS}
+    lab = skel.label(src)
+
+    def steps(vals):
+        I = lambda t, n: ct.IntType(mk(SInt, t, vals[n]))
+        return [("ab", {"a": I(A, "a"), "b": I(B, "b")}), ("a", {"a": I(A2, "a2")}), ("b", {"b": I(B2, "b2")}), ("none", {}),
+                ("ab", {"a": I(A2, "a2"), "b": I(B2, "b2")}), ("b", {"b": I(B, "b")})]
+
+    def run(vals):
+        obs = []
+        for i, (names, act) in enumerate(steps(vals)):
+            ki, vi = common.outcome(lambda: progs["interp"].evaluate(dict(act)))
+            kc, vc = common.outcome(lambda: progs["compiled"].evaluate(dict(act)))
+            if ki != kc:
+                obs.append(Ob(f"C03/repeat/{lab}/kind", z3.BoolVal(False), note=f"step {i} (binds {names}): interp {ki} {_short(vi)}; compiled {kc} {_short(vc)}"))
+                break
+            if ki == "value":
+                obs.append(Ob(f"C03/repeat/{lab}/value", skel.equal_term(vi, vc), note=f"step {i} (binds {names})"))
+            else:
+                obs.append(Ob(f"C03/repeat/{lab}/kind", z3.BoolVal(True)))
+        return obs
+
+    def witness(vals):
+        return {"check": "c03.repeat", "args": {"src": src, "vals": {k: int(v) for k, v in vals.items()}}}
+
+    return Harness(id=f"C03/repeat:{src}", vars=vars, pre=pre, run=run, witness=witness, max_paths=80)
 
 
 def _short(v):
